@@ -514,6 +514,11 @@ pub(crate) async fn write_ibc_genesis(storage: &Storage) {
             ..ChannelEnd::default()
         };
         delta.put_channel(&ChannelId::new(i as u64), &PortId::transfer(), chan);
+        // what the channel handshake leaves behind: sequences start at 1 (a packet with sequence 0
+        // cannot be encoded, so the first packet of a channel could never be acknowledged otherwise)
+        delta.put_send_sequence(&ChannelId::new(i as u64), &PortId::transfer(), 1);
+        delta.put_recv_sequence(&ChannelId::new(i as u64), &PortId::transfer(), 1);
+        delta.put_ack_sequence(&ChannelId::new(i as u64), &PortId::transfer(), 1);
     }
     storage.commit(delta).await.expect("ibc genesis commit");
 }
